@@ -4,21 +4,8 @@
 //!   wbverif replay <ID> <file>
 //!   wbverif list
 
-#![allow(dead_code)]
-mod cluster;
-mod evidence;
-mod interp;
-mod jgen;
-mod persist;
-mod procsrv;
-mod model;
-mod ops;
-mod props;
-mod server;
-mod util;
-mod wire;
-
-use util::{RunCfg, Tier};
+use wbverif::util::{RunCfg, Tier};
+use wbverif::{interp, procsrv, props, util};
 
 fn usage() -> ! {
     eprintln!("usage: wbverif check <ID> [--tier quick|thorough] [--seed N] [--scale F] [--workers N]\n       wbverif replay <ID> <file>\n       wbverif list");
